@@ -597,7 +597,7 @@ def _empty_float_operand(args, exc):
             and any(sp[0] in 'AN' and math.prod(sp[1]) == 0 and sp[3] not in ('i', 'b', 'p', 'e') for sp in args[2]))
 
 
-ELEMENTWISE = ('add', 'sub', 'mul', 'div', 'div_exact', 'pow', 'lshift', 'lt', 'le', 'eq', 'ne', 'ge', 'gt', 'minimum', 'maximum', 'where', 'if_swap')
+ELEMENTWISE = ('add', 'sub', 'mul', 'div', 'div_exact', 'pow', 'lshift', 'abs', 'lt', 'le', 'eq', 'ne', 'ge', 'gt', 'minimum', 'maximum', 'where', 'if_swap')
 
 # delimited classes of failing inputs on the unchanged tree (the strict contract is kept; listed in known_findings.txt by class key)
 EXC_CLASSES = [
@@ -613,6 +613,9 @@ EXC_CLASSES = [
     (lambda a, e: a[1] in ('prod', 'allany') and math.prod(a[2][0][1]) == 0 and isinstance(e, (IndexError, ZeroDivisionError)), 'prod-all-any:empty-array:exception'),
     (lambda a, e: _split_by_indices(a) and isinstance(e, IndexError), 'split:index-list:wrong-number-of-parts'),
     (lambda a, e: a[1] == 'np.hsplit' and len(a[2][0][1]) == 1 and isinstance(e, IndexError), 'hsplit:1-D-array:IndexError'),
+    (lambda a, e: a[1] == 'lsb' and a[2][0][1] == () and isinstance(e, TypeError) and 'reshape' in str(e), 'np_lsb:0-dim-array:TypeError'),
+    (lambda a, e: a[1] == 'matmul' and a[0][0] == 'x' and a[2][0][0] == 'N' and len(a[2][0][1]) == 1 and len(a[2][1][1]) == 1 and isinstance(e, TypeError) and 'finite field element required' in str(e),
+     'fxp:public-1d-ndarray-matmul-secure-1d-array:TypeError'),
     (lambda a, e: a[1] in ('to_bits', 'bits_roundtrip') and a[0][0] == 'f' and _prime_factor(int(a[0][1:]))[1] == 1 and math.prod(a[2][0][1]) == 0 and isinstance(e, IndexError),
      'prime-field-to_bits:empty-array:IndexError'),
 ]
@@ -1498,7 +1501,7 @@ def pair_sample(tier, salt, nq, nt, corners=True):
 
 
 KIND_TYPES = {'i': ('i16',), 'x': ('x32.16',), 'f': ('f11', 'f16')}
-KIND_TYPES_TH = {'i': ('i16', 'i32'), 'x': ('x32.16', 'x24.8'), 'f': ('f11', 'f16', 'f9', 'f257')}
+KIND_TYPES_TH = {'i': ('i16', 'i32'), 'x': ('x32.16', 'x24.12'), 'f': ('f11', 'f16', 'f9', 'f257')}          # fixed point: l <= 2f+1 (division of wider types is a listed C02 finding)
 
 
 def types_of(kind, tier): return (KIND_TYPES if tier == 'quick' else KIND_TYPES_TH)[kind]
@@ -1610,6 +1613,10 @@ def in_matmul(kind):
                 for s1 in ((n, n), (2, n, n), (n,)):
                     j += 1
                     yield (tname, 'matmul', (('A', s1, j, _modes(kind, j)[0] if kind != 'i' else 's'), ('A', s1, j, 'i' if kind != 'f' else 'm')), ('self',))
+                for form in ('@', 'np'):          # public 1-D @ secret 1-D and the reverse (scalar results)
+                    j += 1
+                    yield (tname, 'matmul', (('N', (n,), j, 'm'), ('A', (n,), j + 1, 'm')), (form,))
+                    yield (tname, 'matmul', (('A', (n,), j, 'm'), ('N', (n,), j + 1, 'm')), (form,))
             vs = shapes_upto(2, (0, 1, 2, 3))
             for form in ('np', 'mpc'):
                 for k1, k2 in (('A', 'A'), ('A', 'N'), ('N', 'A')):
@@ -1977,11 +1984,12 @@ def in_bits(kind):
                     yield (tname, 'from_bits', (('A', s + (l,), j, 'b'),), ())
             if kind == 'f': continue
             for s in pick(shp, Tq(tier, 10, len(shp)), 'trunc'):
-                for f in ((1, 3) if kind == 'i' else (None, 2, 16)):
+                for f in ((1, 3) if kind == 'i' else (None, 2, _frac(tname))):
                     j += 1
                     yield (tname, 'trunc', (('A', s, j, 'm'),), (f,))
                 j += 1
                 yield (tname, 'lsb', (('A', s, j, 'm'),), ())
+            yield (tname, 'lsb', (('A', (), j, 'm'),), ())
             for n in range(1, Tq(tier, 6, 9)):
                 for a in range(n):
                     yield (tname, 'unit_vector', (('S', (), j, 'P%d' % a),), (n,))
@@ -2326,6 +2334,11 @@ MP_KNOWN = [
 ]
 
 
+# cases that are part of every batch of a family (so that the classes above are met in every tier, and lsb / public-base powers are run with every configuration)
+MP_FIXED = {'bits_int': [('i16', 'lsb', (('A', (2, 2), 1, 'm'),), ())], 'bits_fxp': [('x32.16', 'lsb', (('A', (3,), 1, 'm'),), ())],
+            'arith_int': [('i16', 'rpow', (('A', (2, 1), 1, 'e'),), (2, 'op'))], 'arith_fxp': [('x32.16', 'rpow', (('A', (2,), 1, 'e'),), (2, 'op'))]}
+
+
 def _mp_known(a, m, t, no_prss):
     for pred, key in MP_KNOWN:
         if pred(a, m, t, no_prss): return key
@@ -2340,6 +2353,7 @@ def call_mp(m, t, no_prss, family, batch, count, seed):
     cases = cases[(batch * count) % max(1, len(cases) - count):][:count * 2]
     _mp_modules()
     cases = [a for a in cases if _passes_one_party(a)][:count]
+    cases += [a for a in MP_FIXED.get(family, ()) if a not in cases]
     known = [a for a in cases if _mp_known(a, m, t, no_prss)]
     cases = [a for a in cases if a not in known]
     st, res = _mp_run(m, t, no_prss, cases, seed)
@@ -2481,3 +2495,65 @@ def run_slice(name, tier, i, k):
 
 def run_group(names, tier):
     return [o for n in names for o in NATIVE[n].run_all(tier)]
+
+
+# ================================================================================================ the delimited classes (root causes), and a lister
+CLASS_TEXT = {
+    '0-dim-array-operands:result-shape-(1,)': 'elementwise operation on 0-dimensional secure array(s) with a scalar (explicit, or the constant inside np_pow/_rec/np_absolute/np_equal): np_add etc. use '
+        "getattr(b, 'shape', (1,)), so the placeholder (fixed point: also the value) has shape (1,) instead of (); e.g. (secint.array(np.array(5)) + secint(2)).shape",
+    'int-or-field-array-divided-by-secure-scalar': 'np_divide(a, b) with b a secure number handles SecureFixedPoint only; field.array(b) of a secure object: ZeroDivisionError/TypeError; e.g. secint.array(np.array([4, 6])) / secint(2)',
+    'fxp-array-from-empty-float-ndarray': 'SecureFixedPointArray.__init__: np.vectorize(lambda a: a.is_integer()) without otypes raises ValueError on size-0 float arrays; e.g. secfxp.array(np.zeros((0,)))',
+    'det-of-secure-field-array:TypeError': 'np_det: secnum(detU) with detU a Future; SecureFiniteField.__init__ does not accept a Future (SecureInteger does); e.g. np.linalg.det(secfld.array(..))',
+    'secure-scalar-compared-with-secure-array:exception': 'secint(2) < a, secint(2) == a, np.minimum(secint(2), a): SecureNumber comparisons run the scalar protocol on the array instead of returning NotImplemented: AssertionError/AttributeError',
+    'comparison-ufunc-public-first-operand:operands-swapped': 'SecureObject.__array_ufunc__ returns op(inputs[1], inputs[0]) when the first input is public: np.less(2, a) and np.array([..]) < a compute a < 2 (wrong values for < <= >= >)',
+    'amin-amax:axis-0-with-keepdims:UnboundLocalError': 'np_amin/np_amax: `elif axis := axis % a.ndim:` skips the branch that sets `shape` for axis 0; e.g. np.amin(a, axis=0, keepdims=True)',
+    'argmin-argmax:axis-of-length-1-with-several-rows:ValueError': '_np_argmin/_np_argmax for n == 1 return u = array([[1]]) whatever the number of rows; e.g. np.argmin(secint.array(np.array([[3], [1]])), axis=1)',
+    'argmin-argmax:ndim>=3-axis-before-the-last-two:remaining-axes-permuted': 'np_argmin/np_argmax use np_swapaxes(a, axis, -1): for ndim >= 3 and an axis before the last two the remaining axes are swapped when the result is reshaped: '
+        'wrong indices / extreme values; e.g. np.argmin(3-D array, axis=0)',
+    'argmin-argmax:extreme-values-without-keepdims:shape-(n,1)-instead-of-1D': 'documented "a 1D array of minimum values"; returned with shape (n, 1); e.g. a.argmin(axis=1, arg_unary=False)[1].shape',
+    'prod-all-any:empty-array:exception': 'np_prod (np_all, np_any): a[0] of an empty first axis / np_reshape(-1, ..0..): IndexError/ZeroDivisionError; NumPy gives 1 / True / False',
+    'split:index-list:wrong-number-of-parts': 'np_split with an index array: N = indices.shape[axis] (IndexError for axis > 0) parts declared; NumPy returns len(indices)+1 parts; e.g. np.split(a, np.array([1]), axis=1)',
+    'hsplit:1-D-array:IndexError': 'np_hsplit always splits axis 1; NumPy splits axis 0 of 1-D arrays',
+    'rot90:even-k:placeholder-shape-with-axes-swapped': 'np_rot90 swaps the two axes in the declared shape for every k; for even k the shape does not change; e.g. np.rot90(a, 2).shape',
+    'stack:negative-axis:placeholder-shape': 'np_stack: shape.insert(axis, n) with a negative axis inserts one position too early; e.g. np.stack((a, a), axis=-1).shape',
+    'fxp-join-with-public-ndarray:public-values-not-scaled': 'np_concatenate/np_stack/np_hstack/np_vstack/np_column_stack/np_append for fixed point pass public ndarrays unscaled (value 2^-f times too small); e.g. np.concatenate((c, np.array([[1, 2, 3]])))',
+    'fxp-roll-with-secret-shift:result-scaled-by-2^f': 'np_roll with a secret shift: np.convolve of two scaled arrays without rescaling (fixed point); e.g. np.roll(secfxp.array(np.array([1., 2., 3.])), secfxp(1))',
+    'field:secure-scalar-holds-0-dim-array': 'np_getitem with a key containing Ellipsis that selects one element, and public 1-D @ secure 1-D: the share is a 0-dimensional field array, mpc.output returns an array instead of a field element',
+    'fxp:public-1d-ndarray-matmul-secure-1d-array:TypeError': 'np_matmul(public 1-D float ndarray, secure 1-D fixed-point array): A @ B is a 0-d field array, stype.sectype(C) raises TypeError',
+    'fxp-sum-with-non-integral-initial:integral-flag-True': 'np_sum takes the integral flag from the array only; a non-integral initial value makes it wrong',
+    'fxp-dstack:integral-flag-None': 'np_dstack: returnType((type(a), shape)) without integral flag; a following flatten() fails on assert a.integral is not None',
+    'find:empty-array:scalar-instead-of-array': 'np_find: `if not a.size: c = f(e)` gives one value instead of an array of the shape with the axis removed',
+    'prime-field-to_bits:empty-array:IndexError': 'np_to_bits over a prime field converts through lists: convert([]) raises IndexError for empty arrays',
+    'np_lsb:0-dim-array:TypeError': 'np_lsb: .reshape(*a.shape) with the empty shape of a 0-dimensional array',
+    'np.divide-ufunc-on-field-array:division-of-representatives': 'FiniteFieldArray.__array_ufunc__ applies np.divide (also ndarray / field array) to the representatives: float quotients (prime fields), TypeError (extension fields)',
+    'np_pseudorandom_share_0:t>=2:values-differ-from-list-version': 'np_pseudorandom_share_0 uses the PRF outputs as coefficients of x, x^2, .., pseudorandom_share_zero (Horner) of x^d, .., x: different, each consistent, sharings of 0 for t >= 2',
+    'np_lsb:no_prss:AttributeError': 'np_lsb calls .reshape on the Future that _np_randoms returns without PRSS (the await comes after it); python prog.py -M3 --no-prss',
+    'public-base-power-of-secure-int-array:non-sender-party:TypeError': '_np_pow_public_int_base_secret_integral_exponent: type(b)(shape=.., integral=True) at the parties that are not senders; SecureIntegerArray takes no integral argument; 2 ** a with -M3',
+}
+
+
+def _list_work(job):
+    from lib.native import _wkey
+    name, tier = job
+    n = NATIVE[name]
+    keys = {}
+    for args in n.inputs(tier):
+        msg = n.eval1(args)
+        if msg:
+            cls = n.last_class
+            key = f'{n.func}:{n.name}:{cls or _wkey(args)}'
+            if key not in keys: keys[key] = (cls, args, msg.split('; args=')[0][:200].replace('\n', ' '))
+    return keys
+
+
+if __name__ == '__main__':
+    # python -m contracts.secarray_native [tier]: the witness keys met on the current tree, as lines for known_findings.txt (classes) or as VIOLATION candidates (no class)
+    import multiprocessing
+    sys.argv = [sys.argv[0], '--no-log'] + sys.argv[1:]
+    tier_ = sys.argv[2] if len(sys.argv) > 2 else 'quick'
+    with multiprocessing.get_context('fork').Pool(16, maxtasksperchild=1) as pool:
+        found = {}
+        for ks in pool.imap_unordered(_list_work, [(nm, tier_) for nm in NATIVE]): found.update(ks)
+    for key, (cls, args, msg) in sorted(found.items()):
+        if cls: print(f'finding: property=C37 key={key} {CLASS_TEXT.get(cls, msg)} [first witness {args!r}]')
+        else: print(f'# UNCLASSED {key}: {msg}')
